@@ -21,6 +21,8 @@ directly in the nested-integer format read by harness/hx-policy:
   ops     [1,replace,setcfg] [2,all,setcfg] [3,name,conds,disp,actions] [4,name,all,conds,disp,actions]
           [5,name,stmts] [6,name,preserve,all,stmts] [7,set,dir,default,policies] [8,dir,names,all]
           [9,dir,source,nlri,attrs,nh,orig_nh,is_confed,local_ip,peer_ip] (dir 0 import 1 export) [10] dump
+          [11,[[ip,mask,max_length,asn]..]] install an RpkiTable with these VRPs (evaluation has rpki=Some from now on)
+          [12,nlri,asn] probe RpkiTable::validate for (prefix, origin AS): [] (None) | [state] | [-2] (no table)
 """
 import json, re, itertools
 from vp import val, coqrun, rustrun
@@ -47,7 +49,8 @@ RX = {
     # large community regexes
     301: '^65000:.*:1$', 302: '65000:1:.*', 303: ':2:',
     # as-path regexes (the code never evaluates these: known finding C14-1)
-    401: '65001', 402: '^65001 6500[0-9]', 403: '_6500[12]_', 404: '^$',
+    401: '65001', 402: '^65001 6500[0-9]', 403: '_6500[12]_', 404: '^$', 405: '\\{65001,', 406: '^\\(6500[0-9]', 407: '65002$',
+    408: '_65004_.*_65001$', 409: '^[0-9]+$', 410: '\\[.*\\]', 411: ' $',
 }
 def rx_entry(i): return [1, i, list(RX[i].encode())]
 
@@ -224,6 +227,8 @@ def c_op(op):
                 'ro_confed := %s; ro_local := %s; ro_peer := %s |})') % (
             cbool(op[1] == 0), c_src(op[2]), c_nlri(op[3]), c_attrs(op[4]), c_nh(op[5]), c_nh(op[6]),
             cbool(op[7]), c_ip(op[8]), c_ip(op[9]))
+    if t == 11: return 'OSetRpki'
+    if t == 12: return '(OProbe %s %s)' % (c_nlri(op[1]), cN(op[2]))
     return 'ODump'
 
 # ---------------------------------------------------------------- regex tables for a case
@@ -248,6 +253,63 @@ def case_universe(ops):
                 if d['code'] == 32: large.update(chunks(d['data'], 12))
     return ids, comm, ext, large
 
+def prepend_bytes(b, seg, asn):
+    if len(b) >= 2 and b[0] == seg and b[1] < 255:
+        return [b[0], b[1] + 1] + list(asn.to_bytes(4, 'big')) + b[2:]
+    return [seg, 1] + list(asn.to_bytes(4, 'big')) + b
+
+def aspath_universe(ops, cap=600):
+    """every AS_PATH byte string evaluation can meet: those of the routes, closed under the case's as-prepend actions"""
+    S = {()}
+    pre = set()
+    for op in ops:
+        if op[0] == 9:
+            for a in op[4]:
+                d = attr_in(a)
+                if d is not None and d['code'] == 2 and d['k'] != 0: S.add(tuple(d['data']))
+        if op[0] == 3 and op[4][4]:
+            asn, rep, lm = op[4][4][0]
+            if rep > 0: pre.add((asn, rep, lm))
+    frontier = set(S)
+    for _ in range(4):
+        new = set()
+        for b in frontier:
+            for asn, rep, lm in pre:
+                for seg in (2, 3):
+                    a = asn
+                    if lm:
+                        sg = iter_segs(list(b))
+                        if sg and sg[0][1]: a = sg[0][1][0]
+                    x = list(b)
+                    for _ in range(rep): x = prepend_bytes(x, seg, a)
+                    x = tuple(x)
+                    if x not in S: new.add(x)
+        S |= new
+        frontier = new
+        if not new or len(S) > cap: break
+    return S
+
+def aspath_table(ops):
+    ids = set()
+    for op in ops:
+        if op[0] in (1, 2) and op[2][0] == 2:
+            for e in op[2][2]:
+                if e and e[0] == 1: ids.add(e[1])
+    if not ids: return []
+    strs = sorted({aspath_string(iter_segs(list(b))) for b in aspath_universe(ops)})
+    return [(i, [st for st in strs if rx_aspath(i, st)]) for i in sorted(ids)]
+
+def probe_table(ops, obs):
+    tv = {}
+    if isinstance(obs, list):
+        for op, o in zip(ops, obs):
+            if op[0] == 12 and o != [-2] and o != [-1]:
+                tv[(tuple(op[1]), op[2])] = o[0] if o else None
+    return tv
+
+def c_str_table(t): return clist(['(%s, %s)' % (cN(i), clist([val.cbytes(list(x.encode())) for x in l])) for i, l in t])
+def c_probe_table(tv): return clist(['(%s, %s, %s)' % (c_nlri(list(k[0])), cN(k[1]), copt(cN(v)) if v is not None else 'None') for k, v in sorted(tv.items())])
+
 def rx_tables(ops):
     ids, comm, ext, large = case_universe(ops)
     tc = [(i, sorted(c for c in comm if rx_comm(i, c))) for i in sorted(ids) if 100 < i < 200]
@@ -262,13 +324,24 @@ def covers(w, eaddr, emask, raddr, rmask):
     return emask <= rmask and (emask == 0 or (eaddr >> (w - emask)) == (raddr >> (w - emask)))
 
 def aspath_string(segs):
+    """python mirror of table/src/policy.rs as_path_string (GoBGP's rendering)"""
     parts = []
     for t, l in segs:
-        if t == 2: parts.append(' '.join(map(str, l)))
-        elif t == 1: parts.append('{' + ','.join(map(str, l)) + '}')
+        if t == 1: parts.append('{' + ','.join(map(str, l)) + '}')
         elif t == 3: parts.append('(' + ' '.join(map(str, l)) + ')')
-        else: parts.append('[' + ','.join(map(str, l)) + ']')
-    return ' '.join(p for p in parts)
+        elif t == 4: parts.append('[' + ','.join(map(str, l)) + ']')
+        else: parts.append(' '.join(map(str, l)))
+    return ' '.join(parts)
+
+def rx_aspath(i, s): return re.search(RX[i].replace('_', '(^|[,{}() ]|$)'), s) is not None
+
+def origin_asn(attrs, src):
+    """the AS RpkiTable::validate checks: as_path_origin of the first AS_PATH attribute, else the source's local AS"""
+    a = find_attr(attrs, 2)
+    if a is not None and a['k'] != 0:
+        segs = iter_segs(a['data'])
+        if segs and segs[-1][0] == 2 and segs[-1][1]: return segs[-1][1][-1]
+    return src[4]
 
 def single_ref(k, a, b, flat):
     rng = lambda x: a <= x <= b
@@ -490,7 +563,7 @@ def ref_cond(c, content, x, attrs, nh):
         res = []
         for p in content:
             if p[0] == 's': res.append(flat is not None and single_ref(p[1], p[2], p[3], flat))
-            else: res.append(segs is not None and re.search(RX[p[1]].replace('_', '(^|[,{}() ]|$)'), aspath_string(segs)) is not None)
+            else: res.append(segs is not None and rx_aspath(p[1], aspath_string(segs)))
         return opt_apply(c[2], any(res), all(res))
     if k in (3, 4, 5):
         code, width, sf, rxf = {3: (8, 4, comm_str, rx_comm), 4: (16, 8, ext_str, rx_ext), 5: (32, 12, large_str, rx_large)}[k]
@@ -510,7 +583,9 @@ def ref_cond(c, content, x, attrs, nh):
             p += 2 + 4 * b[p + 1]
         return cmpf(c[1], l, c[2])
     if k == 7: return bool(nh) and (ipv(nh[0][:3]) if nh[0][0] != 7 else (6, (nh[0][1] << 64) | nh[0][2])) in [ipv(i) for i in c[1]]
-    if k == 8: return False     # no RPKI table in this harness
+    if k == 8:
+        if x.get('rpki') is None: return False
+        return x['rpki'].get((tuple(x['net']), origin_asn(attrs, x['src']))) == c[1]
     if k in (9, 10, 11):
         a = find_attr(attrs, {9: 5, 10: 4, 11: 1}[k])
         return a is not None and a['k'] == 0 and a['data'] == c[1]
@@ -581,7 +656,7 @@ def ref_actions(act, x, attrs, nh):
     if a_orig: attrs = replace_attr(attrs, 1, {'k': 0, 'code': 1, 'flags': 64, 'data': a_orig[0]})
     return attrs, nh
 
-def ref_eval(ref, op):
+def ref_eval(ref, op, rpki=None):
     """reference result of an Eval op: (first element, attrs, nh) or a string for 'no verdict'"""
     d = op[1]
     if d not in ref.asg: return ('none',)
@@ -593,6 +668,7 @@ def ref_eval(ref, op):
         x = {'src': op[2], 'net': op[3], 'orig': nh, 'confed': 0, 'local': op[2][2], 'peer': op[2][1]}
     else:
         x = {'src': op[2], 'net': op[3], 'orig': op[6], 'confed': op[7], 'local': op[8], 'peer': op[9]}
+    x['rpki'] = rpki
     disp = None
     for st, conds in stmts:
         if all(ref_cond(c, content, x, attrs, nh) for c, content in conds):
@@ -606,15 +682,8 @@ def ref_eval(ref, op):
     return ('ok', [first, [attr_out(a) for a in attrs], nh])
 
 def eval_classes(ref, op):
-    """input classes of an Eval op (decidable from the inputs only)"""
-    tags = set()
-    d = op[1]
-    if d in ref.asg:
-        st = ref.flat_statements(d) or []
-        for s, conds in st:
-            for c, content in conds:
-                if c[0] == 2 and any(p[0] == 'r' for p in content): tags.add('aspath-regex')
-    return tags
+    """input classes of an Eval op (decidable from the inputs only); no open finding is left for C14"""
+    return set()
 
 # ---------------------------------------------------------------- the property object
 def NOACT(): return [[], [], [], [], [], [], [], []]
@@ -669,8 +738,9 @@ class Prop:
     def case_to_val(self, c): return c['ops']
     def case_to_coq(self, c):
         tc, te, tl = rx_tables(c['ops'])
-        return 'run_case %s %s %s %s' % (c_table(tc), c_table(te), c_table(tl), clist([c_op(o) for o in c['ops']]))
-    def case_to_json(self, c): return json.loads(json.dumps(c))
+        return 'run_case %s %s %s %s %s %s' % (c_table(tc), c_table(te), c_table(tl), c_str_table(aspath_table(c['ops'])),
+                                             c_probe_table(c.get('_tv', {})), clist([c_op(o) for o in c['ops']]))
+    def case_to_json(self, c): return json.loads(json.dumps({k: v for k, v in c.items() if not k.startswith('_')}))
     def case_from_json(self, j): return j
 
     # ---- running
@@ -683,6 +753,8 @@ class Prop:
                                          release=(prof == 'release'))
             if obs is None: return None, err
             for i, o in zip(idx, obs): out[i] = o
+        # the RpkiTable::validate oracle of the model is instantiated with what the probe operations observed
+        for c, o in zip(cases, out): c['_tv'] = probe_table(c['ops'], o)
         return out, ''
 
     def run_model(self, cases, tier):
@@ -703,15 +775,23 @@ class Prop:
     # ---- Spec oracle on the implementation's observations
     def oracle(self, c, obs):
         ref = Ref()
+        tv = probe_table(c['ops'], obs)
+        rpki = None
         for k, op in enumerate(c['ops']):
             if k >= len(obs): return None
             o = obs[k]
+            if op[0] == 11:
+                rpki = tv
+                continue
+            if op[0] == 12:
+                if o == [-1]: return 'op %d: RpkiTable::validate panicked' % k
+                continue
             if op[0] == 9:
                 cls = eval_classes(ref, op)
                 tag = ''.join(' [class:%s]' % t for t in sorted(cls))
                 if o == [-1]:
                     return 'op %d: policy evaluation panicked%s' % (k, tag)
-                r = ref_eval(ref, op)
+                r = ref_eval(ref, op, rpki)
                 if r[0] == 'none':
                     if o != [-2]: return 'op %d: evaluation result without an assignment' % k
                     continue
@@ -741,7 +821,6 @@ class Prop:
         return None
 
     def in_known_class(self, kf, c, obs, why):
-        if kf['id'] == 'C14-1': return '[class:aspath-regex]' in why
         return False
 
     def nontrivial_key(self, c, obs):
@@ -755,7 +834,7 @@ class Prop:
                     sig.append((op[1], o[0], tuple(a[1] for a in o[1]), len(o[2])))
                     nontrivial = nontrivial or ref_has
                 else: sig.append(tuple(o))
-            elif op[0] == 10: continue
+            elif op[0] in (10, 11, 12): continue
             else:
                 sig.append((op[0], tuple(o)))
                 if op[0] == 3 and o == [0]:
@@ -768,7 +847,9 @@ class Prop:
         n = len(c['ops'])
         tags.append('ops_%s' % ('1-6' if n <= 6 else '7-12' if n <= 12 else '13+'))
         if isinstance(obs, list):
-            codes = [o[0] for op, o in zip(c['ops'], obs) if op[0] not in (9, 10) and o != [-1]]
+            codes = [o[0] for op, o in zip(c['ops'], obs) if op[0] not in (9, 10, 11, 12) and o != [-1]]
+            for op, o in zip(c['ops'], obs):
+                if op[0] == 12 and o != [-2]: tags.append('rpki_probe_%s' % (o[0] if o else 'none'))
             for code, nm in ((1, 'err_invalid'), (2, 'err_in_use'), (3, 'err_not_found')):
                 if code in codes: tags.append(nm)
             if [-1] in obs: tags.append('panic')
